@@ -285,7 +285,7 @@ OptsAll   == Opts
 \* the four continue/abort combinations, with and without X excluded
 OptsCore  == {x \in Opts : ~x.inc}
 OptsAbort == {x \in Opts : ~x.coe /\ ~x.cop /\ ~x.inc /\ ~x.exc}
-OptsCont  == {x \in Opts : x.coe /\ x.cop /\ ~x.inc}
+OptsCont4 == {x \in Opts : ~x.inc /\ ~x.exc}
 
 (* ---------------------------------------------------------------- Properties *)
 
@@ -301,8 +301,9 @@ Quiescent == ~ENABLED Internal
 Rep(i)  == Contract(F[i], o).report
 Cont(i) == Contract(F[i], o).cont
 
-\* an error or panic of the user function is never swallowed ...
-NothingSwallowed == Fin => \A i \in exited : Rep(i) = "must" => i \in result
+\* an error or panic of the user function is never swallowed: it reaches the result, carrying the sentinels
+\* errors.Is must find (the original error; ErrRecoveredPanic for a panic) ...
+NothingSwallowed == Fin => \A i \in exited : Rep(i) = "must" => (i \in result /\ Need(F[i]) \subseteq ErrVal(F[i]))
 \* ... while io.EOF, ErrIteratorSkip, context errors (unless included) and excluded errors are never reported
 NeverReported == \A i \in reported \cup result : Rep(i) # "never" /\ ErrVal(F[i]) \cap NeverFound(o) = {}
 \* the result is nil exactly when no reportable failure occurred (failures the property does not classify decide nothing)
